@@ -51,6 +51,9 @@ pub enum Scenario {
     /// the interpreter crate, which expands to_dyn! for every variant of the build, compiles against rrtk built with
     /// `alloc` only (1) / without any feature (2) whenever its twin without the to_dyn! expansions does
     RrtkBuildCompiles { rrtk_build: u8 },
+    /// a borrow taken through a lock-backed Reference holds the lock for as long as it lives (0 Arc<Mutex>, 1 Arc<RwLock>):
+    /// observed from outside with try_lock / try_read / try_write on the shared Arc, never by blocking
+    LockHeld { variant: u8 },
 }
 
 fn variant(i: u8) -> Variant {
@@ -197,7 +200,7 @@ fn stress_hold(variant: u8, threads: u8, increments: u32, hold_ms: u32) -> Resul
     Ok(())
 }
 
-fn statics() -> Result<(), Violation> {
+pub fn statics() -> Result<(), Violation> {
     let _g = STATICS_GUARD.lock().unwrap_or_else(|e| e.into_inner());
     trait Val {
         fn v(&self) -> i64;
@@ -224,6 +227,15 @@ fn statics() -> Result<(), Violation> {
         ensure!(*a.borrow() == 42, format!("C17/statics/{}", name), "{}: the original does not see a write made through a clone", name);
         ensure!(*b.borrow() == 0, format!("C17/statics/{}", name), "{}: two different call sites share one object", name);
         *a.borrow_mut() = 0;
+    }
+    // evaluating the same call site again hands out the same, still living object: nothing is reset or dropped
+    for (name, site) in [("static_reference", site_a as fn() -> Reference<i64>), ("static_mutex_reference", static_mutex_ref as fn() -> Reference<i64>), ("static_rw_lock_reference", static_rw_lock_ref as fn() -> Reference<i64>)] {
+        let first = site();
+        *first.borrow_mut() = 314;
+        let again = site();
+        ensure!(*first.borrow() == 314 && *again.borrow() == 314, format!("C17/statics/{}/re-evaluated", name), "{}: after the same call site was evaluated a second time the first Reference reads {} and the second {} (314 was written through the first)", name, *first.borrow(), *again.borrow());
+        *again.borrow_mut() = 0;
+        ensure!(*first.borrow() == 0, format!("C17/statics/{}/re-evaluated", name), "{}: two evaluations of one call site do not alias", name);
     }
     // to_dyn! on the two static-backed variants the macro lists
     let d = to_dyn!(Val, site_a());
@@ -302,6 +314,10 @@ pub fn check(s: &Scenario) -> CheckResult {
             Ok(CaseInfo::new(true, 17).class("static_* macros"))
         }
         Scenario::CallerCompiles { no_std, features } => caller_compiles(*no_std, *features),
+        Scenario::LockHeld { variant } => {
+            lock_held(*variant)?;
+            Ok(CaseInfo::new(true, hash_of(&("lock-held", variant % 2))).class("borrow holds its lock"))
+        }
         Scenario::RrtkBuildCompiles { rrtk_build } => {
             let b = if *rrtk_build % 3 == 1 { 1 } else { 2 };
             let name = if b == 1 { "alloc-only" } else { "featureless" };
@@ -314,6 +330,42 @@ pub fn check(s: &Scenario) -> CheckResult {
     }
 }
 
+pub fn lock_held(variant: u8) -> Result<(), Violation> {
+    if variant % 2 == 0 {
+        let arc = Arc::new(Mutex::new(5i64));
+        for (how, r) in [("from_arc_mutex", Reference::from_arc_mutex(arc.clone())), ("a clone", Reference::from_arc_mutex(arc.clone()).clone())] {
+            {
+                let b = r.borrow();
+                ensure!(*b == 5, "C17/lock-held/ArcMutex", "borrow() through {} reads {}", how, *b);
+                ensure!(arc.try_lock().is_err(), "C17/lock-held/ArcMutex", "while a Borrow taken through {} is alive the mutex is not locked: another thread could replace the target under it", how);
+            }
+            ensure!(arc.try_lock().is_ok(), "C17/lock-held/ArcMutex", "after the Borrow taken through {} was dropped the mutex is still locked", how);
+            {
+                let mut b = r.borrow_mut();
+                *b = 5;
+                ensure!(arc.try_lock().is_err(), "C17/lock-held/ArcMutex", "while a BorrowMut taken through {} is alive the mutex is not locked", how);
+            }
+            ensure!(arc.try_lock().is_ok(), "C17/lock-held/ArcMutex", "after the BorrowMut taken through {} was dropped the mutex is still locked", how);
+        }
+    } else {
+        let arc = Arc::new(RwLock::new(5i64));
+        for (how, r) in [("from_arc_rw_lock", Reference::from_arc_rw_lock(arc.clone())), ("a clone", Reference::from_arc_rw_lock(arc.clone()).clone())] {
+            {
+                let b = r.borrow();
+                ensure!(*b == 5, "C17/lock-held/ArcRwLock", "borrow() through {} reads {}", how, *b);
+                ensure!(arc.try_write().is_err(), "C17/lock-held/ArcRwLock", "while a Borrow taken through {} is alive a writer can get the lock", how);
+            }
+            ensure!(arc.try_write().is_ok(), "C17/lock-held/ArcRwLock", "after the Borrow taken through {} was dropped a writer still cannot get the lock", how);
+            {
+                let mut b = r.borrow_mut();
+                *b = 5;
+                ensure!(arc.try_read().is_err() && arc.try_write().is_err(), "C17/lock-held/ArcRwLock", "while a BorrowMut taken through {} is alive the lock can be taken by someone else", how);
+            }
+            ensure!(arc.try_write().is_ok(), "C17/lock-held/ArcRwLock", "after the BorrowMut taken through {} was dropped the lock is still held", how);
+        }
+    }
+    Ok(())
+}
 fn caller_source(no_std: bool, with_to_dyn: bool) -> String {
     let head = if no_std { "#![no_std]\n#![allow(unused, dead_code)]\nextern crate std as host;\n" } else { "#![allow(unused, dead_code)]\nextern crate std as host;\n" };
     let conv = |r: &str| if with_to_dyn { format!("rrtk::to_dyn!(Bump, {})", r) } else { format!("{{ let _ = {}; unimplemented!() }}", r) };
@@ -344,11 +396,15 @@ pub fn from_rw_lock(p: *const host::sync::RwLock<Counter>) -> Reference<dyn Bump
     let concrete = unsafe {{ Reference::from_ptr_rw_lock(p) }};
     {rw}
 }}
+pub fn again(concrete: Reference<dyn Bump>) -> Reference<dyn Bump> {{
+    {again}
+}}
 "#,
         head = head,
         ptr = conv("concrete"),
         rc = conv("concrete"),
         rw = conv("concrete"),
+        again = conv("concrete"),
     )
 }
 fn caller_compiles(no_std: bool, features: bool) -> CheckResult {
@@ -379,7 +435,7 @@ fn caller_compiles(no_std: bool, features: bool) -> CheckResult {
         return Ok(CaseInfo::new(false, 0).class("caller probe: control twin does not compile (skipped)"));
     }
     let (ok, diag) = compile(true);
-    ensure!(ok, format!("C17/to_dyn/caller-does-not-compile/{}", if no_std { "no_std" } else { "std" }), "a {} calling crate {} cfg(feature = \"alloc\"/\"std\") cannot use to_dyn! on Ptr / RcRefCell / PtrRwLock References although rrtk itself is built with std (its twin without the to_dyn! calls compiles): {}", if no_std { "#![no_std]" } else { "std" }, if features { "with" } else { "without" }, diag);
+    ensure!(ok, format!("C17/to_dyn/caller-does-not-compile/{}", if no_std { "no_std" } else { "std" }), "a {} calling crate {} cfg(feature = \"alloc\"/\"std\") cannot use to_dyn! on Ptr / RcRefCell / PtrRwLock References (or on an already converted Reference<dyn Trait>) although rrtk itself is built with std (its twin without the to_dyn! calls compiles): {}", if no_std { "#![no_std]" } else { "std" }, if features { "with" } else { "without" }, diag);
     Ok(CaseInfo::new(true, hash_of(&("caller", no_std, features))).class("calling crate compiles to_dyn!"))
 }
 
@@ -417,6 +473,9 @@ impl Property for C17 {
         }
         for rrtk_build in [1u8, 2] {
             sink(Scenario::RrtkBuildCompiles { rrtk_build });
+        }
+        for variant in [0u8, 1] {
+            sink(Scenario::LockHeld { variant });
         }
         // every variant x every pair of ops (length-2 prefixes) followed by a fixed tail, in all three crates
         let alphabet = [SOp::Clone(0), SOp::ToDyn(0), SOp::Read(1), SOp::Write(1, 5), SOp::Drop(0), SOp::ToDyn(1)];
